@@ -139,6 +139,13 @@ def pretty_dnode(node, ctx, trailing_comment=None):
     return pretty_node(node, ctx, trailing_comment=trailing_comment)
 
 
+@register_pretty(predicate=lambda v: isinstance(v, Node))
+def pretty_any_node_by_predicate(node, ctx):
+    """a predicate printer that ALSO accepts Node / DNode instances: never consulted while their class printers are registered - and not a
+    substitute for the repr when such a printer fails"""
+    return 'PREDICATE-PRINTER-USED<%s>' % node.name
+
+
 @register_pretty(predicate=lambda v: type(v) is PNode)
 def pretty_pnode(node, ctx):
     FAULTS.printer_calls += 1
